@@ -128,7 +128,34 @@ def run(ctx):
             cases.append({"text": text_for(L), "languages": langs, "settings": None, "withlang": rng.random() < 0.7})
         for _ in range(300 if ctx.quick() else 5000):       # arbitrary strings
             cases.append({"text": gen_string(rng, 300), "languages": rng.choice([None, ["en"], [rng.choice(order)]]), "settings": None, "withlang": False})
+    for i, c in enumerate(cases):       # the chunking loop is probed for the single-language calls of every third case
+        if c.get("languages") and len(c["languages"]) == 1 and i % 3 == 0 and len(c["text"]) <= 120:
+            c["chunks"] = True
     results = core.run_cases(ctx, "harness.lib", "call_search", cases, chunk=100)
+    # ---- refinement of the chunking loop (SearchChunks.tla): TLC computes the chunks, rendered and compared here
+    import re as _re
+    crecs, cidx = [], []
+    for i, (c, r) in enumerate(zip(cases, results)):
+        for pc in r.get("chunks") or []:
+            if any(len(sn["t"]) != len(sn["orig"]) for sn in pc["sents"]):
+                continue
+            crecs.append({"tid": len(crecs), "jointOK": pc["jointOK"], "sents": [{"t": sn["t"]} for sn in pc["sents"]]})
+            cidx.append((i, pc))
+    chunk_drift = 0
+    if crecs:
+        ct, _g = core.validate_traces(ctx, "T_Chunks", "SPECIFICATION TSpec\nPOSTCONDITION Consumed\nCHECK_DEADLOCK FALSE\n", crecs, tags=("CHUNKS",))
+        for t in ct["CHUNKS"]:
+            tid, per_sentence = t[1], t[2]
+            i, pc = cidx[tid]
+            exp = []
+            for sn, ranges in zip(pc["sents"], per_sentence):
+                for a, b in ranges:
+                    toks = [x for x in sn["orig"][a - 1:b] if x]
+                    exp.append("".join(toks) if pc["nospace"] else _re.sub(r"\s{2,}", " ", " ".join(toks)))
+            if exp != pc["original"]:
+                chunk_drift += 1
+                if chunk_drift <= 5:
+                    ctx.note_drift("SearchChunks", {"text": cases[i]["text"], "languages": cases[i]["languages"], "model_chunks": exp, "code_chunks": pc["original"]})
     records = []
     for i, (c, r) in enumerate(zip(cases, results)):
         records.append({"tid": i, "exc": r["exc"], "isnone": r["isnone"], "islist": r["islist"], "withlang": bool(c["withlang"]),
@@ -150,6 +177,7 @@ def run(ctx):
                       observed={"exc": r["exc"], "msg": r.get("msg"), "hits": [[h.get("sub"), h.get("dt"), h["first"], h["seq"]] for h in r["hits"]]}, extra={"full_case": c})
     ctx.notes.append({"reject_classes": {"|".join(map(str, k)): v for k, v in seen.items()}})
     cov = {
+        "chunking_calls_validated": len(crecs), "chunking_drift": chunk_drift,
         "language_choices_validated": sum(len(r.get("detect", [])) for r in results),
         "evaluations": len(cases), "distinct_nontrivial": len({(c["text"], repr(c["languages"])) for c, r in zip(cases, results) if r["hits"]}),
         "rule": "case = (text <= 300 chars, languages or autodetection, RELATIVE_BASE, add_detected_language); non-trivial = distinct call returning hits",
